@@ -6,6 +6,7 @@ import (
 	"reflect"
 	"strings"
 	"sync"
+	"time"
 
 	admissionv1 "k8s.io/api/admission/v1"
 	corev1 "k8s.io/api/core/v1"
@@ -145,7 +146,7 @@ func runC15(c *Ctx) {
 // (no slot of a limiter, no half-filled cache, no sticky error).
 func runFaultHistories(c *Ctx) {
 	r := NewRng(c.Seed + 1516)
-	rounds := sizes(c, 6, 60)
+	rounds := sizes(c, 16, 96)
 	for round := 0; round < rounds; round++ {
 		lead := genAdmitCase(r.Fork(), round, AdmitKnobs{Kind: "ns", FaultPct: 0, SynPct: 0, SubPct: 0, ExemptHeavy: false,
 			Pods: func(r *Rng) []*corev1.Pod { return genPopulation(r, 2+r.Intn(6), []string{"exrc"}) }})
@@ -166,6 +167,10 @@ func runFaultHistories(c *Ctx) {
 				a.CtxCancelled = true
 			case "objErr":
 				a.Obj = ObjSpec{Kind: "err"}
+			case "deadlinePassed":
+				a.Remaining = 1
+			case "shortDeadline":
+				a.Remaining = pick(r, []time.Duration{60 * time.Millisecond, 200 * time.Millisecond, 800 * time.Millisecond})
 			}
 			return a
 		}
@@ -184,7 +189,7 @@ func runFaultHistories(c *Ctx) {
 			}
 			return a
 		}
-		fault := pick(r, []string{"listErr", "listErr", "cancelledHalfWay", "cancelled", "objErr", "nsErr"})
+		fault := []string{"listErr", "deadlinePassed", "shortDeadline", "cancelledHalfWay", "cancelled", "objErr", "nsErr", "listErr"}[round%8]
 		var group []*AdmitCase
 		group = append(group, lead)
 		nFaults := 4 + r.Intn(5)
@@ -216,7 +221,7 @@ func runFaultHistories(c *Ctx) {
 			if fresh.Panic != "" || hist[j].Panic != "" {
 				continue
 			}
-			if d := diffAdmit(fresh, hist[j], "allowed code causes message warnings ann audit evalCalls listCalls metrics"); len(d) > 0 {
+			if d := diffAdmit(fresh, hist[j], "allowed code causes message warnings ann audit evalCalls listCalls metrics timeout"); len(d) > 0 {
 				c.Violate(Finding{Desc: fmt.Sprintf("after %d requests that failed the same way (%s), an ordinary %s request to the same controller is answered differently from the request alone on a fresh controller: %s", nFaults, fault, group[j].Res, strings.Join(d, "; ")),
 					Key: "depends-on-failed-requests", Input: J{"fault": fault, "failedRequests": nFaults, "request": group[j].opJSON()["req"]}, Go: J{"afterTheFailures": hist[j], "alone": fresh}})
 				break
